@@ -79,7 +79,23 @@ def _system(draw, big):
         for j in range(i + 1, n):
             J[i][j] = J[j][i] = draw(st.sampled_from([0, 1, 1])) * draw(st.integers(-400, 400))
     case = {"kind": "system", "mols": mols, "J": J, "mult": draw(st.sampled_from([1, 1, 2]))}
-    return _cap(case, 48 if not big else 110)
+    # mult = 2 may be built with the couplings between bands that differ by two excitations (fem_full)
+    case["fem_full"] = case["mult"] == 2 and n >= 2 and draw(st.booleans())
+    allm = [md for m in mols for md in m["modes"]]
+    if allm and draw(st.sampled_from([False, False, True])):
+        # strongly displaced mode with many levels in the excited state (one level in the ground state keeps the
+        # state space small): high rows and columns of the overlap matrix
+        md = allm[draw(st.integers(0, len(allm) - 1))]
+        md["hr20"] = draw(st.integers(20, 90))
+        md["n0"] = 1
+        md["n1"] = draw(st.integers(6, 14))
+    case = _cap(case, 48 if not big else 110)
+    if allm and draw(st.sampled_from([False, False, True])):
+        # the aggregate object is re-used: after the first build the Huang-Rhys factor of one mode is changed and the
+        # aggregate is rebuilt (rebuild() or a second build())
+        case["rebuild"] = {"mode": draw(st.integers(0, len(allm) - 1)), "hr20": draw(st.integers(0, 40)),
+                           "how": draw(st.sampled_from(["rebuild", "build"]))}
+    return case
 
 
 def _count_states(case):
@@ -218,11 +234,33 @@ def _system_check(case, ctx):
                 for j in range(i + 1, n):
                     if J[i][j]:
                         agg.set_resonance_coupling(i, j, float(J[i][j]))
-        agg.build(mult=mult)
+        kw = {"fem_full": True} if case.get("fem_full") else {}
+        agg.build(mult=mult, **kw)
+        rb = case.get("rebuild")
+        if rb:
+            modes[rb["mode"]].set_HR(1, rb["hr20"] / 20.0)
+            if rb["how"] == "rebuild" and not kw:
+                agg.rebuild(mult=mult)
+            else:
+                agg.clean()
+                agg.build(mult=mult, **kw)
         return agg
     ok, agg = guarded(ctx, "aggregate/build", build)
     if not ok:
         return
+    if case.get("rebuild"):
+        # from here on the expectation is that of the changed Huang-Rhys factor
+        import copy
+        case = copy.deepcopy(case)
+        k = 0
+        for m in case["mols"]:
+            for md in m["modes"]:
+                if k == case["rebuild"]["mode"]:
+                    md["hr20"], md["hre"], md["neg"] = case["rebuild"]["hr20"], 0, False
+                k += 1
+        ctx.label("rebuilt-after-HR-change")
+    if case.get("fem_full"):
+        ctx.label("fem_full")
     with qr.energy_units("int"):
         H = numpy.array(agg.get_Hamiltonian().data, dtype=float)
     D = numpy.array(agg.get_TransitionDipoleMoment().data, dtype=float)
@@ -274,6 +312,11 @@ def _system_check(case, ctx):
                 Href[a, a] = sum(e for e, o in zip(Eint, sa) if o) + sum(qa[k] * minfo[k][1] for k in range(len(minfo)))
             elif sa != sb:
                 Href[a, b] = orc.frenkel_element(sa, sb, Eint, Jint) * fc
+                if case.get("fem_full") and abs(sum(sa) - sum(sb)) == 2:
+                    # two molecules excited (or de-excited) at once: the resonance coupling of that pair
+                    diff = [i for i in range(n) if sa[i] != sb[i]]
+                    if len(diff) == 2:
+                        Href[a, b] = Jint[diff[0]][diff[1]] * fc
             Dref[a, b, :] = orc.frenkel_dipole(sa, sb, dips) * fc
     escale = max(Eint) * mult
     ctx.close("aggregate/fc-factors", FCf, Fref, rtol=0, atol=1e-9)
